@@ -162,6 +162,8 @@ def plan(tier, seed):
         (corner("real", prefix=A.DEEP_GL_EOM, name="real-deep-root-in-eom"), tG, 2),
         (corner("real", prefix=[("slm", ["q0"])] + A.GL, name="real-ising-slm-mask"), A.timing(dmm=True, faults=False), 2),
         (corner("real", prefix=A.GL, max_dur=100, retarget=220, name="real-max-duration-below-waits"), tG, 2),
+        (corner("unit", prefix=A.GR, over={"rydberg_local": dict(clock=4, min_dur=8)}, name="unit-samebasis-clock-1-vs-4"),
+         A.timing(l="r", basis_l="ground-rydberg", eom=False), 3),
         (corner("unit8", prefix=A.GL, bw=30, eom=dict(mod_bandwidth=8), name="unit8-eom-slower-than-channel"), tG, 2),
         (corner("awk", prefix=A.DEEP_GL_AFTER, name="awk-deep-root-after-eom"), tG, 2),
     ]
